@@ -70,6 +70,13 @@ theorem crashAfterCas_recovers :
         | none => false)
      | none => false) = true := by decide
 
+/-- only instance 0 acts in that run -/
+theorem crashAfterCas_inst : ∀ e ∈ crashAfterCas, e.inst = some 0 := by
+  have h : crashAfterCas.all (fun e => e.inst == some 0) = true := by decide
+  intro e he
+  have := List.all_eq_true.1 h e he
+  simpa using this
+
 end Seq.RecDemo
 
 namespace Seq.Cex
